@@ -122,7 +122,11 @@ def observe(t, probes=None, order_rng=None):
             return int(t.index(i, ax))
         except Exception:
             return None
-    o = {"obs_ids": obs_ids, "samp_ids": samp_ids, "shape": [int(t.shape[0]), int(t.shape[1])],
+    # the same facts have several public spellings (shape / length(axis); iter(axis='sample') / iter(table)): a share of the
+    # observations asks the other spelling, and the Lean predicate judges whichever was asked
+    alt = order_rng is not None and order_rng.random() < 0.5
+    shape = [int(t.length("observation")), int(t.length("sample"))] if alt else [int(t.shape[0]), int(t.shape[1])]
+    o = {"obs_ids": obs_ids, "samp_ids": samp_ids, "shape": shape,
          "index_obs": [idx(i, "observation") for i in t.ids(axis="observation")],
          "index_samp": [idx(i, "sample") for i in t.ids()],
          "exists_obs": [bool(t.exists(i, axis="observation")) for i in t.ids(axis="observation")],
@@ -164,7 +168,7 @@ def observe(t, probes=None, order_rng=None):
             ("cells", [], lambda: [[core.frac(t.get_value_by_ids(a, b)) for b in t.ids()]
                                    for a in t.ids(axis="observation")]),
             ("iter_obs", [], lambda: [[str(i), fr(v)] for v, i, _ in t.iter(axis="observation")]),
-            ("iter_samp", [], lambda: [[str(i), fr(v)] for v, i, _ in t.iter(axis="sample")]),
+            ("iter_samp", [], lambda: [[str(i), fr(v)] for v, i, _ in (iter(t) if alt else t.iter(axis="sample"))]),
             ("pairwise_obs", [], lambda: [[[str(a[1]), fr(a[0])], [str(b[1]), fr(b[0])]]
                                           for a, b in t.iter_pairwise(axis="observation")]),
             ("nonzero", [], lambda: [[str(a), str(b)] for a, b in t.nonzero()]),
